@@ -36,7 +36,8 @@ def _worker(arg):
         res['item'] = item
         res['wall'] = round(time.time() - t0, 2)
         return res
-    except Exception:      # noqa: worker crash is a harness error
+    except BaseException:      # noqa: worker crash is a harness error (also a SystemExit that
+        # a harness lets through: the pool would wait for the lost task for ever)
         return {'item': item, 'crash': traceback.format_exc()[-1500:],
                 'wall': round(time.time() - t0, 2)}
 
